@@ -359,6 +359,60 @@ theorem norm2 (G : GenesisG) :
     rfl
   · rfl
 
+/-! ### a loop leaves early only with an error
+
+  (`Loop.ret r` always carries `r.1 = true`; this is what makes "return the loop's result at once"
+  and "hand `(err, store)` to a caller that goes on iff `err` is false" the same function) -/
+
+theorem loop1_ret (l : List Auction) : ∀ (st : GStore) (r : Bool × GStore),
+    InitGenesis.loop1 l st = Loop.ret r → r.1 = true := by
+  induction l with
+  | nil => intro st r h; simp [InitGenesis.loop1] at h
+  | cons a rest ih =>
+    intro st r h
+    rw [InitGenesis.loop1] at h
+    exact ih _ _ h
+
+theorem loop2_ret (l : List AllowedArg) : ∀ (st : GStore) (r : Bool × GStore),
+    InitGenesis.loop2 l st = Loop.ret r → r.1 = true := by
+  induction l with
+  | nil => intro st r h; simp [InitGenesis.loop2] at h
+  | cons a rest ih =>
+    intro st r h
+    rw [InitGenesis.loop2] at h
+    simp only at h
+    split at h
+    · rename_i he
+      cases h
+      simpa using he
+    · exact ih _ _ h
+
+theorem loop3_ret (l : List Bid) : ∀ (m : Int → Option Int) (st : GStore) (r : Bool × GStore),
+    InitGenesis.loop3 l m st = Loop.ret r → r.1 = true := by
+  induction l with
+  | nil => intro m st r h; simp [InitGenesis.loop3] at h
+  | cons a rest ih =>
+    intro m st r h
+    rw [InitGenesis.loop3] at h
+    simp only at h
+    split at h
+    · cases h; rfl
+    · split at h
+      · exact ih _ _ _ h
+      · exact ih _ _ _ h
+
+theorem loop4_ret (l : List VQ) : ∀ (st : GStore) (r : Bool × GStore),
+    InitGenesis.loop4 l st = Loop.ret r → r.1 = true := by
+  induction l with
+  | nil => intro st r h; simp [InitGenesis.loop4] at h
+  | cons a rest ih =>
+    intro st r h
+    rw [InitGenesis.loop4] at h
+    simp only at h
+    split at h
+    · cases h; rfl
+    · exact ih _ _ h
+
 theorem InitGenesis_eq (G : GenesisG) (st : GStore) :
     Gen.InitGenesis G st =
       match InitGenesis.loop1 G.auctions st with
@@ -386,7 +440,44 @@ theorem InitGenesis_eq (G : GenesisG) (st : GStore) :
     have := norm2 G
     split at this <;> simp_all
   simp only [e2]
-  rfl
+  first
+  | rfl
+  | (cases h1 : InitGenesis.loop1 G.auctions st with
+     | ret r1 =>
+       have := loop1_ret _ _ _ h1
+       obtain ⟨e, s'⟩ := r1
+       simp only at this
+       subst this
+       simp
+     | done s1 =>
+       simp only [Bool.false_eq_true, if_false]
+       cases h2 : InitGenesis.loop2 G.allowed s1 with
+       | ret r2 =>
+         have := loop2_ret _ _ _ h2
+         obtain ⟨e, s'⟩ := r2
+         simp only at this
+         subst this
+         simp
+       | done s2 =>
+         simp only [Bool.false_eq_true, if_false]
+         cases h3 : InitGenesis.loop3 G.bids (fun _ => none) s2 with
+         | ret r3 =>
+           have := loop3_ret _ _ _ _ h3
+           obtain ⟨e, s'⟩ := r3
+           simp only at this
+           subst this
+           simp
+         | done s3 =>
+           obtain ⟨m3, s3⟩ := s3
+           simp only [Bool.false_eq_true, if_false]
+           cases h4 : InitGenesis.loop4 G.vqs s3 with
+           | ret r4 =>
+             have := loop4_ret _ _ _ h4
+             obtain ⟨e, s'⟩ := r4
+             simp only at this
+             subst this
+             simp
+           | done s4 => simp)
 
 end ImportTie
 open ImportTie
